@@ -42,6 +42,24 @@ theorem ref_scheme_full (P : Spec.Parts) (wf : WF P) (s : Text) (hs : P.scheme =
   rw [this]
   simp [slice]
 
+/-- `RiBufImpl::set_scheme` (full types) splices at the same range as the reference setter -/
+theorem set_scheme_full_recompose (P : Spec.Parts) (wf : WF P) (s0 : Text) (hs : P.scheme = some s0) (s' : Text) :
+    Ref.set_scheme_full (recompose P) s' = some (recompose { P with scheme := some s' }) := by
+  rw [← set_scheme_some_recompose P wf s']
+  unfold Ref.set_scheme_full Ref.set_scheme Parse.scheme
+  simp only [find_scheme_recompose P wf, hs, Option.map_some]
+  obtain ⟨_, hsc⟩ := wf.scheme s0 hs
+  have hw : recompose P = s0 ++ cColon :: restS P := by
+    rw [recompose_S, hs]; simp [schemeText]
+  rw [hw, List.drop_zero]
+  have : spanLen (fun c => c != cColon) (s0 ++ cColon :: restS P) = s0.length := by
+    apply spanLen_ne cColon s0 (cColon :: restS P) _ (.inr ⟨_, rfl⟩)
+    intro hc
+    have := hsc cColon hc
+    simp [nCSQH] at this
+  rw [this]
+  simp
+
 /-- **§5.2.2, empty reference path** -/
 theorem resolve_empty_path (R B : Spec.Parts) (wR : WF R) (wB : WF B) (sb : Text) (hsb : B.scheme = some sb)
     (hs : R.scheme = none) (ha : R.authority = none) (hp : R.path = []) :
